@@ -12,7 +12,11 @@ coq/model/Schema.v against the regenerated `published_hugr_strict` constant; bot
 a failing case is re-evaluated part by part to name what failed and to report a disagreement of the two validators as
 model drift).  Per HUGR of a case the JSON value the implementation wrote is compared in Coq with
 the rendering (coq/model/DocJson.v `doc_json`) of the document the Gallina model of Hugr._to_serial computes from
-the public-API dump; operation objects and metadata dicts come from that dump, not from the document."""
+the public-API dump; operation objects and metadata dicts come from that dump, not from the document.
+
+Loaded writers (seeded C03-i, C03._reemit): the first HUGR / Extension / Package document of a case is read back and
+written again, twice in a row (packages also through their envelopes); every text so written, incl. lowering HUGRs nested
+in extensions, is judged like a first-generation document."""
 import json
 import os
 
@@ -355,6 +359,11 @@ class C03(RT):
             # ... a row-polymorphic call (C03-c's shape) with a partial argument list, an extension operation given one
             # of its three wires through add / extend with an order edge out of it, a partially wired CallIndirect
             Q(partial_rowpoly(["B", "I", "B"], 1)), Q(partial_custom("add")), Q(partial_custom("extend")),
+            # seeded C03-i: an extension whose operation has a lowering HUGR, READ from its document and WRITTEN again
+            # (twice in a row), alone and inside a package read from JSON and from an envelope: the nested HUGR document
+            # of the second writing is as index-sane and schema-valid as the first (observation: _reemit)
+            {"kind": "ext", "which": "custom_hugr", "prog": "bool_id"},
+            {"kind": "pkg", "progs": ["empty_module"], "ext": True},
         ]
 
     def generate(self, rng, tier, ctx):
@@ -373,6 +382,21 @@ class C03(RT):
                     seed = rng.randrange(1 << 30)
                 c["seed"] = seed
             cases.append(c)
+        # (seeded C03-i) more extensions with a lowering HUGR and packages carrying such an extension: every case is
+        # also read back and written again (_reemit); drawn after the streams above, whose draws are unchanged
+        for i in range(4 if tier == "quick" else 40):
+            if i % 2 == 0:
+                es = rng.randrange(1 << 30)
+                while not c02.usable_seed(es):
+                    es = rng.randrange(1 << 30)
+                cases.append({"kind": "ext", "which": "custom_hugr", "seed": es})
+            else:
+                seeds = []
+                while len(seeds) < 1 + i % 3:
+                    x = rng.randrange(1 << 30)
+                    if c02.usable_seed(x, "module"):
+                        seeds.append(x)
+                cases.append({"kind": "pkg", "seeds": seeds, "ext": True})
         return cases
 
     @staticmethod
@@ -419,10 +443,163 @@ class C03(RT):
         srv.check = recording
         try:
             o = super().observe(case, ctx)
+            self._reemit(case, o, rec, recording, ctx)
         finally:
             del srv.check
         o["schema_docs"] = rec
         return o
+
+    # -- documents written by objects that were themselves READ from a document (seeded C03-i)
+    # "Every document produced by HUGR, package and extension serialization": also the one an object writes that was
+    # loaded from JSON / from an envelope and not built in Python.  Per case, the first document of each emitting class
+    # is read back (Hugr.load_json, Extension.from_json, Package.from_json / from_bytes) and written again, GENERATIONS
+    # times in a row; every text so written (HUGR, Package, Extension, every lowering HUGR nested in an extension
+    # document, also inside a package) is handed to the schema server and so joins `schema_docs`: judged by
+    # python-jsonschema, the Coq validator and json_index_sane (coq/run/C03SchemaRun.v mon_py / mon_coq / mon_jidx)
+    # like a first-generation document.  A text equal, character by character, to one already judged in this case is
+    # not sent again (same text, same verdict).  Each nested / module document must moreover be the document of the
+    # HUGR the loaded object holds (up to doc_canon; folded into lowering_ok / same, as c02.lowerings_ok does for the
+    # first generation): that is how the port-addressing clauses reach a re-written nested document.
+    # A READER that raises on the library's own document is C02's subject: counted, no verdict here.
+    GENERATIONS = 2
+
+    def _reemit(self, case, o, rec, check, ctx):
+        import warnings
+        from hugr.ext import Extension
+        from hugr.hugr import Hugr
+        from hugr.package import Package
+        k = case["kind"]
+        if "skip" in o or any(key in o for key in ("doc_error", "pkg_error", "ext_error")):
+            return
+        st = ctx.stats.setdefault("documents_written_by_loaded_objects", {
+            "written": 0, "same_text_as_a_document_already_judged": 0, "judged_as_new_documents": 0,
+            "nested_lowering_documents": 0, "reader_raises_no_verdict": 0, "writer_raises": 0})
+        seen = {(d, t) for d, t, _ in rec}
+        bad = []
+
+        def send(defname, text):
+            st["written"] += 1
+            if (defname, text) in seen:
+                st["same_text_as_a_document_already_judged"] += 1
+                return
+            seen.add((defname, text))
+            st["judged_as_new_documents"] += 1
+            check(defname, text)
+
+        def is_doc_of(d, h):
+            """the (nested) HUGR document d is the wire-format document of the HUGR h the loaded object holds"""
+            try:
+                return d.get("version") == "live" and \
+                    c02.doc_canon(c02.doc_view(d)) == c02.doc_canon(c02.doc_view(json.loads(h.to_json())))
+            except Exception:
+                return False
+
+        def ext_doc(doc, e):
+            """the lowering HUGRs nested in the extension document `doc`, written by the loaded extension e"""
+            ops_ = doc.get("operations") if isinstance(doc, dict) else None
+            if not isinstance(ops_, dict):
+                return bad.append("extension document without operations")
+            for name, od in e.operations.items():
+                lfs = ops_.get(name, {}).get("lower_funcs", [])
+                if len(lfs) != len(od.lower_funcs):
+                    bad.append("lowerings lost")
+                    continue
+                for lf_doc, lf in zip(lfs, od.lower_funcs):
+                    st["nested_lowering_documents"] += 1
+                    d = lf_doc.get("hugr") if isinstance(lf_doc, dict) else None
+                    if not isinstance(d, dict):
+                        bad.append("lowering without a HUGR document")
+                        continue
+                    send("SerialHugr", json.dumps(d))
+                    if not is_doc_of(d, lf.hugr):
+                        bad.append("nested document is not the document of the loaded lowering HUGR")
+
+        def pkg_doc(text, p):
+            send("Package", text)
+            doc = json.loads(text)
+            mods, exts = doc.get("modules"), doc.get("extensions")
+            if not isinstance(mods, list) or len(mods) != len(p.modules) or \
+                    not isinstance(exts, list) or len(exts) != len(p.extensions):
+                return bad.append("package document does not list the modules / extensions of the loaded package")
+            for md, h in zip(mods, p.modules):
+                if not (isinstance(md, dict) and is_doc_of(md, h)):
+                    bad.append("module document is not the document of the loaded module")
+            for ed, e in zip(exts, p.extensions):
+                ext_doc(ed, e)
+
+        def first(defname):
+            return next((t for d, t, _ in rec if d == defname), None)
+
+        def step(read, write):
+            """one generation: -> the object read, the text it writes; None when the READER raises"""
+            try:
+                x = read()
+            except Exception:
+                st["reader_raises_no_verdict"] += 1
+                return None
+            try:
+                return x, write(x)
+            except Exception as e:
+                st["writer_raises"] += 1
+                bad.append("writer raises " + type(e).__name__)
+                return None
+
+        with warnings.catch_warnings():
+            warnings.simplefilter("ignore")
+            if k in ("hugr", "hist"):
+                cur = first("SerialHugr")
+                for _ in range(self.GENERATIONS if cur is not None else 0):
+                    r = step(lambda: Hugr.load_json(cur), lambda h: h.to_json())
+                    if r is None:
+                        break
+                    cur = r[1]
+                    send("SerialHugr", cur)
+                # (a writer that raises on a reloaded HUGR is doc2_error of the C02 observation)
+                return
+            if k == "ext":
+                cur = first("Extension")
+                for _ in range(self.GENERATIONS if cur is not None else 0):
+                    r = step(lambda: Extension.from_json(cur), lambda e: e.to_json())
+                    if r is None:
+                        break
+                    e, cur = r
+                    send("Extension", cur)
+                    ext_doc(json.loads(cur), e)
+                if bad:
+                    o["lowering_ok"] = False
+                    o["rewritten"] = bad[:3]
+                return
+            if k == "pkg":
+                cur = first("Package")
+                if cur is None:
+                    return
+                # first through the JSON reader, then through the envelope (binary, then text)
+                r = step(lambda: Package.from_json(cur), lambda p: p.to_json())
+                if r is not None:
+                    p, cur = r
+                    pkg_doc(cur, p)
+                    for to_env, from_env in ((Package.to_bytes, Package.from_bytes), (Package.to_str, Package.from_str)):
+                        # the envelope the loaded package writes carries its document (payload after the 10-byte
+                        # header, where it reads as JSON: the envelope itself is C09's subject)
+                        w = step(lambda: p, to_env)
+                        if w is None:
+                            break
+                        env = w[1]
+                        try:
+                            payload = (env if isinstance(env, str) else env.decode("utf-8"))[10:]
+                            json.loads(payload)
+                        except Exception:
+                            c02.drift(ctx, "package_envelope_payload_not_json_after_10_byte_header")
+                        else:
+                            pkg_doc(payload, p)
+                        r = step(lambda: from_env(env), lambda q: q.to_json())
+                        if r is None:
+                            break
+                        p, cur = r
+                        pkg_doc(cur, p)
+                if bad:
+                    o["same"] = False
+                    o["rewritten"] = bad[:3]
 
     # -- literal
     @staticmethod
@@ -542,6 +719,9 @@ class C03(RT):
 
     def describe(self, case, obs):
         d = super().describe(case, obs)
+        if "rewritten" in obs:
+            # what was wrong with a document written by an object that was read from this case's document
+            d["observed"]["written_again_after_reading"] = obs["rewritten"]
         bad = [(n, t) for n, t, ans in obs.get("schema_docs", []) if ans != "OK"]
         if bad:
             d["observed"]["rejected_document"] = {"definition": bad[0][0], "text": bad[0][1][:20000]}
@@ -626,6 +806,11 @@ class C03(RT):
             ctx.notes.append("MODEL DRIFT: python-jsonschema %s and the Coq validator %s a document of case %s"
                              % ("accepts" if d["mon_py"] else "rejects", "accepts" if d["mon_coq"] else "rejects",
                                 json.dumps(case)[:300]))
+        if generic and "rewritten" in obs:
+            # a document written by an object that was read from this case's document (_reemit)
+            return "written-again-after-reading:" + (
+                "json-text-not-index-sane" if not d["mon_jidx"] else
+                "schema" if not (d["mon_py"] and d["mon_coq"]) else "not-the-document-of-the-loaded-object")
         if generic and not d["mon_coq"] and d["mon_typed"]:
             return "schema:coq-validator-rejects:python-jsonschema-accepts"
         if generic and not d["mon_static"] and d["mon_typed"]:
